@@ -107,7 +107,7 @@ Leaves == <<
 
 ---------------------------------------------------------------------------
 (* WRAPS: how the leaf is nested.  The harness realises the schema AND the matching value container.     *)
-Wraps == <<"direct", "array", "array_minmax_unique", "array_of_array", "object", "object_closed_required", "addprops",
+Wraps == <<"direct", "array", "array_unique", "array_minmax_unique", "array_of_array", "object", "object_closed_required", "addprops",
            "oneof", "anyof", "allof", "not_not", "ref", "recursive", "oneof_discriminator", "nullable_object", "array_of_object",
            "allof_object_merge", "anyof_array_or_leaf">>
 
@@ -132,7 +132,7 @@ Sites == <<
    Body("body_form_ct_json", "application/x-www-form-urlencoded", "ct_json"),
    Body("body_multipart", "multipart/form-data", "none"), Body("body_multipart_ct_json", "multipart/form-data", "ct_json"),
    Body("body_multipart_part_headers", "multipart/form-data", "headers"), Body("body_multipart_nested_multipart", "multipart/form-data", "ct_multipart"),
-   Body("body_multipart_ct_zip_csv", "multipart/form-data", "ct_csv"),
+   Body("body_multipart_ct_zip_csv", "multipart/form-data", "ct_csv"), Body("body_multipart_ct_yaml", "multipart/form-data", "ct_yaml"),
    Body("body_yaml", "application/yaml", "none"), Body("body_x_yaml", "application/x-yaml", "none"), Body("body_csv", "text/csv", "none"),
    Body("body_zip", "application/zip", "none"), Body("body_text", "text/plain", "none"), Body("body_octet", "application/octet-stream", "none"),
    Body("body_xml_no_decoder", "application/xml", "none"), Body("body_media_range", "application/*", "none"), Body("body_any", "*/*", "none"),
@@ -233,10 +233,63 @@ ASSUME RespMutations \subseteq (Range(MutRespHead) \cup Range(MutRespBody))
 FeatSeq == SetToSeq(DocFeatures)
 
 ---------------------------------------------------------------------------
+(* SERVERS: the servers object of the document AND the concrete URL prefix of a request that matches it (the variable-binding *)
+(* code of the routers only runs for a request that matches a templated server).  [n, url, vars: <<name, default, enum>>*,    *)
+(* first: a server listed before it that does not match (or ""), level: doc | path | op, base: scheme://host[:port]/prefix]   *)
+SV(name, def, enum) == <<name, def, enum>>
+Srv(n, url, vars, first, level, base) == [n |-> n, url |-> url, vars |-> vars, first |-> first, level |-> level, base |-> base]
+Servers == <<
+   Srv("root_slash", "/", <<>>, "", "doc", "http://example.com"),
+   Srv("abs_trailing_slash", "http://example.com/api/", <<>>, "", "doc", "http://example.com/api"),
+   Srv("host_var", "http://{sub}.example.com/v1", <<SV("sub", "api", <<"api", "www">>)>>, "", "doc", "http://api.example.com/v1"),
+   Srv("host_var_non_default", "http://{sub}.example.com/v1", <<SV("sub", "api", <<"api", "www">>)>>, "", "doc", "http://www.example.com/v1"),
+   Srv("host_var_outside_enum", "http://{sub}.example.com/v1", <<SV("sub", "api", <<"api", "www">>)>>, "", "doc", "http://zzz.example.com/v1"),
+   Srv("var_twice_host_and_path", "https://{region}.example.com/{region}/v1", <<SV("region", "eu", <<>>)>>, "", "doc", "https://eu.example.com/eu/v1"),
+   Srv("var_twice_different_values", "https://{region}.example.com/{region}/v1", <<SV("region", "eu", <<>>)>>, "", "doc", "https://eu.example.com/us/v1"),
+   Srv("var_twice_adjacent", "http://example.com/{a}{a}", <<SV("a", "x", <<>>)>>, "", "doc", "http://example.com/xx"),
+   Srv("var_thrice_op_level", "http://{a}.example.com/{a}/{a}", <<SV("a", "x", <<>>)>>, "", "op", "http://x.example.com/x/x"),
+   Srv("four_vars", "{scheme}://{host}:{port}/{base}", <<SV("scheme", "http", <<"http", "https">>), SV("host", "example.com", <<>>), SV("port", "8080", <<>>), SV("base", "b", <<>>)>>,
+       "", "doc", "http://example.com:8080/b"),
+   Srv("second_server_matches", "http://{sub}.example.com/{sub}", <<SV("sub", "api", <<>>)>>, "https://{sub}.nomatch.example.org/{sub}/{sub}", "doc", "http://api.example.com/api"),
+   Srv("relative_with_var_path_level", "/{base}/x", <<SV("base", "b", <<>>)>>, "", "path", "http://example.com/b/x"),
+   Srv("whole_url_is_a_var", "{u}", <<SV("u", "http://example.com/w", <<>>)>>, "", "doc", "http://example.com/w"),
+   Srv("var_value_with_slash", "http://example.com/{p}", <<SV("p", "a/b", <<>>)>>, "", "doc", "http://example.com/a/b"),
+   Srv("var_value_regex_chars", "http://example.com/{p}", <<SV("p", "a.b+(c)", <<>>)>>, "", "doc", "http://example.com/a.b+(c)"),
+   Srv("port_var_default_port", "http://example.com:{port}/v1", <<SV("port", "80", <<"80", "8080">>)>>, "", "doc", "http://example.com/v1"),
+   Srv("https_explicit_default_port", "https://example.com:443/api", <<>>, "", "doc", "https://example.com/api"),
+   Srv("var_value_percent_encoded", "http://example.com/{p}", <<SV("p", "a%2Fb", <<>>)>>, "", "doc", "http://example.com/a%2Fb")
+>>
+
+---------------------------------------------------------------------------
+(* FOCUS products.  A pairwise array does not promise a triple; where one decoder produces values outside the JSON data model *)
+(* the triple site x value x wrap matters (uniqueItems hashing, enum comparison, the type switch of the visitor, error text),   *)
+(* so it is emitted in full: every YAML-decoding site x every YAML-only value form x every wrap, the leaf rotating.            *)
+YamlValues == <<
+   R("yaml_key_int", "{1: x}"), R("yaml_key_null", "{~: x}"), R("yaml_key_bool", "{true: x}"), R("yaml_key_float", "{1.5: x}"),
+   R("yaml_key_list", "{[1, 2]: x}"), R("yaml_key_map", "{{a: b}: x}"), R("yaml_key_mixed", "{a: 1, 2: b, [3]: {4: 5}}"),
+   R("yaml_nested_key_int", "{a: {b: [{1: x}]}}"), R("yaml_timestamp", "2001-12-14t21:59:43.10-05:00"), R("yaml_date", "2002-12-14"),
+   R("yaml_binary", "!!binary aGVsbG8="), R("yaml_set", "!!set {a, b}"), R("yaml_omap", "!!omap [a: 1, b: 2]"),
+   R("yaml_bigint", "123456789012345678901234567890"), R("yaml_hex", "0x1F"), R("yaml_octal", "0o17"), R("yaml_inf", ".inf"), R("yaml_neg_inf", "-.inf"),
+   R("yaml_nan2", ".NaN"), R("yaml_null_word", "null"), R("yaml_str_tag", "!!str 1"), R("yaml_float_tag", "!!float 1"), R("yaml_int_tag_bad", "!!int x"),
+   R("yaml_custom_tag", "!custom {a: 1}"), R("yaml_merge", "{<<: {a: 1}, b: 2}"), R("yaml_merge_list", "{<<: [{a: 1}, {1: 2}], p: 3}"),
+   R("yaml_anchor_alias", "&k {p: 1, q: *k}"), R("yaml_uint64_max", "18446744073709551615"), R("yaml_int64_min", "-9223372036854775808")
+>>
+Focuses == <<
+   [n |-> "yaml_values", sites |-> <<"body_yaml", "body_x_yaml", "resp_yaml", "body_multipart_ct_yaml">>, values |-> YamlValues, wraps |-> Wraps]
+>>
+SiteNamed(n) == CHOOSE x \in {Sites[q] : q \in DOMAIN Sites} : x.n = n
+FocusCase(f, a, b, c) ==
+   LET F == Focuses[f]
+       leaf == Leaves[((a * 7 + b * 3 + c * 5 + Seed) % Len(Leaves)) + 1]
+   IN [kind |-> "shape", site |-> SiteNamed(F.sites[a]), leaf |-> leaf, value |-> F.values[b], wrap |-> F.wraps[c],
+       dmod |-> <<>>, murl |-> <<>>, mhdr |-> <<>>, mbody |-> <<>>, mrhead |-> <<>>, mrbody |-> <<>>, mode |-> "focus",
+       opts |-> IF (a + b + c + Seed) % 3 = 0 THEN <<"multi">> ELSE <<>>, feat |-> <<>>, server |-> <<>>]
+
+---------------------------------------------------------------------------
 (* the dimensions in column order *)
 Dim(c) == CASE c = 0 -> Sites [] c = 1 -> Leaves [] c = 2 -> Values [] c = 3 -> Wraps [] c = 4 -> DocMods [] c = 5 -> MutUrl [] c = 6 -> MutHdr
-            [] c = 7 -> MutBody [] c = 8 -> MutRespHead [] c = 9 -> MutRespBody [] c = 10 -> Opts [] c = 11 -> FeatSeq
-NDims == 12
+            [] c = 7 -> MutBody [] c = 8 -> MutRespHead [] c = 9 -> MutRespBody [] c = 10 -> Opts [] c = 11 -> FeatSeq [] c = 12 -> Servers
+NDims == 13
 ASSUME \A c \in 0..(NDims-1) : Len(Dim(c)) <= P
 ASSUME NDims <= P + 1
 
@@ -253,7 +306,7 @@ Core(c, i, j, k) == Dim(c)[(Slot(c, i, j, k) % Len(Dim(c))) + 1]
 (* MODES.  A route-breaking URL mutation hides everything behind it; so the array is emitted once per mode, each mode     *)
 (* activating one part of the traffic mutations (on a response site: of the response mutations), mode "clean" none of them *)
 (* (all pairs of site x leaf x value x wrap x docmod x option x feature on well-formed traffic), mode "all" every part.    *)
-Modes == <<"clean", "url", "hdr", "body", "all">>
+Modes == <<"clean", "url", "hdr", "body", "all", "focus">>
 ShapeCase(i, j, k0, m) ==
    LET k == k0 * 7 + m
        mode == Modes[m + 1]
@@ -268,7 +321,7 @@ ShapeCase(i, j, k0, m) ==
        mbody |-> IF resp THEN <<>> ELSE Act("body", 7),
        mrhead |-> IF resp /\ mode \in {"url", "hdr", "all"} THEN Opt1(8, i, j, k) ELSE <<>>, mrbody |-> IF resp /\ mode \in {"body", "all"} THEN Opt1(9, i, j, k) ELSE <<>>,
        mode |-> mode,
-       opts |-> Opt1(10, i, j, k), feat |-> Opt1(11, i, j, k)]
+       opts |-> Opt1(10, i, j, k), feat |-> Opt1(11, i, j, k), server |-> Opt1(12, i, j, k)]
 
 VARIABLES ri, rj, rk, rm
 SInit == ri \in 0..(P-1) /\ rj \in 0..(P-1) /\ rk \in 0..(K-1) /\ rm \in 0..(NModes-1)
@@ -281,7 +334,8 @@ InSeq(x, s) == \E n \in DOMAIN s : s[n] = x
 OptIn(x, s) == Len(x) = 0 \/ (Len(x) = 1 /\ InSeq(x[1], s))
 NameIn(r, s) == \E n \in DOMAIN s : s[n].n = r.n
 ShapeInUniverse(c) ==
-   /\ NameIn(c.site, Sites) /\ NameIn(c.leaf, Leaves) /\ NameIn(c.value, Values) /\ InSeq(c.wrap, Wraps)
+   /\ NameIn(c.site, Sites) /\ NameIn(c.leaf, Leaves) /\ (NameIn(c.value, Values) \/ \E f \in DOMAIN Focuses : NameIn(c.value, Focuses[f].values))
+   /\ InSeq(c.wrap, Wraps) /\ (Len(c.server) = 0 \/ (Len(c.server) = 1 /\ NameIn(c.server[1], Servers)))
    /\ OptIn(c.dmod, DocMods) /\ OptIn(c.murl, MutUrl) /\ OptIn(c.mhdr, MutHdr) /\ OptIn(c.mbody, MutBody)
    /\ InSeq(c.mode, Modes) /\ OptIn(c.mrhead, MutRespHead) /\ OptIn(c.mrbody, MutRespBody) /\ OptIn(c.opts, Opts)
    /\ (Len(c.feat) = 0 \/ (Len(c.feat) = 1 /\ c.feat[1] \in DocFeatures))
